@@ -21,7 +21,9 @@ CONSTANTS G,          \* objective values 0..G, two objectives
           Targets,    \* target sizes
           Viols,      \* violation counts in use ({0} = no safety metric)
           Ages,       \* ages in use
-          Limits      \* eviction limits (99 = none)
+          Limits,     \* eviction limits (99 = none)
+          NSafe, NUnsafe   \* 0, 0: every population up to NMax; otherwise exactly NSafe genes without and NUnsafe genes with a
+                           \* violated constraint (age 0): the layouts in which a cut falls INSIDE a violation class below others
 
 Points == (0..G) \X (0..G)
 Genes == [y : Points, v : Viols, age : Ages]
@@ -48,7 +50,9 @@ Outcome(pop, target, limit) ==
 
 VARIABLES pop, target, limit
 vars == <<pop, target, limit>>
-Init == /\ \E n \in 1..NMax : pop \in [1..n -> Genes]
+Init == /\ IF NSafe + NUnsafe = 0 THEN \E n \in 1..NMax : pop \in [1..n -> Genes]
+           ELSE \E ys \in [1..NSafe + NUnsafe -> Points] :
+                  pop = [i \in 1..NSafe + NUnsafe |-> [y |-> ys[i], v |-> IF i <= NSafe THEN 0 ELSE 1, age |-> 0]]
         /\ target \in Targets /\ limit \in Limits
 Next == UNCHANGED vars
 Spec == Init /\ [][Next]_vars
